@@ -285,6 +285,7 @@ func (w *world) commit(op WOp) {
 		before = w.storeKeys()
 	}
 	wroteSomething := w.t.GetRoot() != nil && w.t.GetRoot().Dirty()
+	wasClean := w.clean // no update or delete since the last commit
 	var err error
 	// a batch can only be held back when its commit collapses nothing (level 64: every node stays in memory);
 	// otherwise the live trie itself could not read the nodes it has just turned into hash references
@@ -344,7 +345,7 @@ func (w *world) commit(op WOp) {
 	}
 	w.dirtyRead = false
 	w.clean = true
-	if wroteSomething {
+	if !wasClean {
 		w.rolledBack = false
 	}
 	root := append([]byte{}, w.t.Root()...)
@@ -391,9 +392,10 @@ func (w *world) commit(op WOp) {
 		w.checkReopen(w.db.Get, &w.commits[len(w.commits)-1], "after-commit")
 	}
 	if w.has("C13") && w.cp != nil {
-		if !wroteSomething {
-			// a Commit with nothing to save (a flush helper called twice, a retry) is not a second batch of changes:
-			// the rollback window stays what it was
+		if wasClean && w.afterCP >= 1 {
+			// a Commit of the state that has just been committed (a flush helper called twice, a retry) is not a
+			// second batch of changes: the rollback window stays what it was. (The first commit after a checkpoint
+			// always counts, also when its batch is empty or empties the trie.)
 			w.stats.Inc("probe.commit-with-nothing-to-save-under-a-checkpoint")
 			return
 		}
